@@ -32,7 +32,9 @@ CONSTANTS MaxMods,      \* modules per context
           MaxInsns,     \* free instructions per function (labels and the final return come on top)
           Grid,         \* "tiny" | "full" : size of the value grids and of the signature / register lists
           Preamble,     \* TRUE: every module starts with an import, a vararg prototype and a data item (targets for references)
-          Header,       \* "free" | "fixed": "fixed" = one canonical function header (exhaustive enumeration of single instructions)
+          Header,       \* "free" | "fixed" | "none": "fixed" = one canonical function header (exhaustive enumeration of single
+                        \* instructions), "none" = no function items besides the preamble's (exhaustive enumeration of items)
+          OneFree,      \* TRUE: one operand position of an instruction ranges over every form, the others take a default
           MinItems,     \* sampling aid: a module is not closed before it has this many items (0 = any size)
           MinInsns,     \* sampling aid: a function is not closed before it has this many free instructions
           NonFinite     \* TRUE: infinities, NaN payloads, unnormal long doubles among FP immediates (C11)
@@ -87,7 +89,7 @@ ItemPool == <<"a", "b1", "_c", "d.e", "f$", "g_2", "%h", "Long_item_name_0123456
 ArgPool == <<"p1", "p2", "p3", "p4">>
 LocPool == <<"x", "y2", "_z", "t1", "w.v", "u$">>
 GlobPool == <<"G1", "G2">>
-AliasG == {"", "al", "b.c"}
+AliasG == IF Grid = "full" THEN {"", "al", "b.c"} ELSE {"", "al"}
 ModNames == <<"m", "mod_2", "m3", "m4">>
 HardReg(t) == CASE t = "i64" -> {"rbx", "r12"} [] t \in {"f", "d"} -> {"xmm5", "xmm14"} [] OTHER -> {}
 
@@ -115,7 +117,9 @@ Fixed == Header = "fixed"
 PreambleItems ==
   <<[k |-> "import", name |-> ItemPool[1]],
     [k |-> "proto", name |-> ItemPool[2], va |-> TRUE, res |-> <<"i64">>, args |-> <<[t |-> "i64", name |-> ArgPool[1], size |-> Zero], [t |-> "blk1", name |-> ArgPool[2], size |-> W(16)]>>],
-    [k |-> "data", name |-> ItemPool[3], t |-> "u8", via |-> "data", els |-> <<<<65>>, <<0>>>>]>>
+    [k |-> "data", name |-> ItemPool[3], t |-> "u8", via |-> "data", els |-> <<<<65>>, <<0>>>>],
+    [k |-> "func", name |-> ItemPool[4], va |-> FALSE, res |-> <<"i64">>, args |-> <<>>, locals |-> <<>>, globals |-> <<>>,
+     insns |-> <<[op |-> "label", n |-> 1], [op |-> "ret", ops |-> <<[k |-> "int", w |-> W(3)]>>]>>]>>
 Items0 == IF Preamble THEN PreambleItems ELSE <<>>
 
 (* ------------------------------------------------------------------ constructor state *)
@@ -131,7 +135,7 @@ cvars == <<mods, items, ci, fn, cn, co, owed, phase>>
 
 NoCur == [kind |-> "", vals |-> <<>>]
 NoFn == [name |-> ""]
-NoInsn == [op |-> "", grp |-> "", sig |-> <<>>, ops |-> <<>>, proto |-> ""]
+NoInsn == [op |-> "", grp |-> "", sig |-> <<>>, ops |-> <<>>, proto |-> "", fp |-> 0]
 NoOp == [form |-> "", vals |-> <<>>]
 
 ItemName(it) == it.name
@@ -245,7 +249,7 @@ MkItem(kind, v) ==
     [] kind = "lref" -> [k |-> "lref", name |-> NameOrAnon(v[1]), l1 |-> <<v[2], v[3]>>, l2 |-> (IF v[4] = 0 THEN <<>> ELSE <<v[2], v[4]>>), disp |-> v[5]]
     [] kind = "expr" -> [k |-> "expr", name |-> NameOrAnon(v[1]), func |-> v[2]]
 
-ItemKinds == IF Fixed THEN {"func"} ELSE {"import", "export", "forward", "proto", "bss", "data", "ref", "lref", "expr", "func"}
+ItemKinds == IF Fixed THEN {"func"} ELSE IF Header = "none" THEN {"import", "export", "forward", "proto", "bss", "data", "ref", "lref", "expr"} ELSE {"import", "export", "forward", "proto", "bss", "data", "ref", "lref", "expr", "func"}
 KindEnabled(k) ==
   /\ HaveFresh
   /\ k = "ref" => RefTargets # {}
@@ -261,7 +265,7 @@ FnHeader(v) ==
    nlab |-> v[e + 3 + nl], placed |-> 0, style |-> v[e + 4 + nl], insns |-> <<>>, free |-> 0]
 
 (* ------------------------------------------------------------------ operand builder *)
-MemTypes(c) == CASE c = "i" -> IntTypes [] c \in FpTypes -> {c} [] c = "pvar" -> {"i64", "u8"} [] c = "valist" -> {"i64"} [] c = "vamem" -> ScalarTypes
+MemTypes(c) == CASE c = "i" -> TSel(IntTypes) [] c \in FpTypes -> {c} [] c = "pvar" -> {"i64", "u8"} [] c = "valist" -> {"i64"} [] c = "vamem" -> TSel(ScalarTypes)
 Forms(cl) ==
   LET c == cl.c IN
   CASE c = "i" /\ ~cl.out -> (IF FnRegs("i") # {} THEN {"reg"} ELSE {}) \cup {"int", "uint", "mem", "str"} \cup (IF RefTargets # {} THEN {"ref"} ELSE {})
@@ -293,7 +297,7 @@ OpDom(cl, form, f, v) ==
     [] f = "base" -> {""} \cup FnRegs("i")
     [] f = "base1" -> FnRegs("i")
     [] f = "index" -> {""} \cup FnRegs("i")
-    [] f = "scale" -> (IF v[4] = "" THEN {1} ELSE {1, 2, 4, 8})
+    [] f = "scale" -> (IF v[4] = "" THEN {1} ELSE IF Grid = "full" THEN {1, 2, 4, 8} ELSE {1, 8})
     [] f = "alias" -> AliasG
     [] f = "nonalias" -> AliasG
     [] f = "refname" -> (IF cl.c = "callee" THEN Callees ELSE RefTargets)
@@ -340,6 +344,8 @@ CallSig(p, nx) == <<I("proto"), I("callee")>> \o [i \in 1..Len(p.res) |-> O(TCla
                   \o [i \in 1..nx |-> I("vaextra")]
 RetSig == [i \in 1..Len(fn.res) |-> I(TClass(fn.res[i]))]
 
+FreePos(sig) == IF OneFree /\ Len(sig) > 0 THEN 1..Len(sig) ELSE {0}
+
 (* ------------------------------------------------------------------ actions *)
 Init ==
   /\ mods = <<>> /\ items = Items0 /\ ci = NoCur /\ fn = NoFn /\ cn = NoInsn /\ co = NoOp /\ owed = <<>> /\ phase = "mod"
@@ -376,7 +382,7 @@ ChooseGroup ==
   /\ UNCHANGED <<mods, items, ci, fn, co, owed, phase>>
 ChooseOpcode ==
   /\ InFunc /\ cn.grp \notin {"", "label", "call", "switch", "ret"} /\ cn.op = ""
-  /\ \E o \in GroupOpsNow(cn.grp) : cn' = [cn EXCEPT !.op = o, !.sig = Sig(o)]
+  /\ \E o \in GroupOpsNow(cn.grp) : \E fp \in FreePos(Sig(o)) : cn' = [cn EXCEPT !.op = o, !.sig = Sig(o), !.fp = fp]
   /\ UNCHANGED <<mods, items, ci, fn, co, owed, phase>>
 PlaceLabel ==
   /\ InFunc /\ cn.grp = "label"
@@ -387,25 +393,28 @@ ChooseCall ==
   /\ InFunc /\ cn.grp = "call" /\ cn.op = ""
   /\ \E o \in GroupOps("call"), p \in Protos, nx \in 0..2 :
        /\ (nx > 0 => p.va)
-       /\ cn' = [cn EXCEPT !.op = o, !.proto = p.name, !.sig = CallSig(p, nx)]
+       /\ \E fp \in FreePos(CallSig(p, nx)) : cn' = [cn EXCEPT !.op = o, !.proto = p.name, !.sig = CallSig(p, nx), !.fp = fp]
   /\ UNCHANGED <<mods, items, ci, fn, co, owed, phase>>
 ChooseSwitch ==
   /\ InFunc /\ cn.grp = "switch" /\ cn.op = "" /\ fn.nlab >= 1
-  /\ \E n \in 1..3 : cn' = [cn EXCEPT !.op = "switch", !.sig = <<I("i")>> \o [i \in 1..n |-> I("lab")]]
+  /\ \E n \in 1..3, fp \in 0..(IF OneFree THEN 1 ELSE 0) : cn' = [cn EXCEPT !.op = "switch", !.sig = <<I("i")>> \o [i \in 1..n |-> I("lab")], !.fp = fp]
   /\ UNCHANGED <<mods, items, ci, fn, co, owed, phase>>
 ChooseRet ==
   /\ InFunc /\ cn.grp = "ret" /\ cn.op = ""
-  /\ cn' = [cn EXCEPT !.op = "ret", !.sig = RetSig]
+  /\ \E fp \in FreePos(RetSig) : cn' = [cn EXCEPT !.op = "ret", !.sig = RetSig, !.fp = fp]
   /\ UNCHANGED <<mods, items, ci, fn, co, owed, phase>>
 
 CurClass == cn.sig[Len(cn.ops) + 1]
+(* with OneFree only position cn.fp is free; the final return of a function always takes defaults then *)
+Default(D) == {CHOOSE x \in D : TRUE}
+Narrow(D) == IF OneFree /\ Len(cn.ops) + 1 # cn.fp THEN Default(D) ELSE D
 ChooseForm ==
   /\ InFunc /\ cn.op # "" /\ Len(cn.ops) < Len(cn.sig) /\ co.form = ""
-  /\ \E f \in Forms(CurClass) : co' = [form |-> f, vals |-> <<>>]
+  /\ \E f \in Narrow(Forms(CurClass)) : co' = [form |-> f, vals |-> <<>>]
   /\ UNCHANGED <<mods, items, ci, fn, cn, owed, phase>>
 FillOp ==
   /\ InFunc /\ co.form # "" /\ Len(co.vals) < Len(OpFields(co.form))
-  /\ \E x \in OpDom(CurClass, co.form, OpFields(co.form)[Len(co.vals) + 1], co.vals) : co' = [co EXCEPT !.vals = Append(@, x)]
+  /\ \E x \in Narrow(OpDom(CurClass, co.form, OpFields(co.form)[Len(co.vals) + 1], co.vals)) : co' = [co EXCEPT !.vals = Append(@, x)]
   /\ UNCHANGED <<mods, items, ci, fn, cn, owed, phase>>
 CloseOp ==
   /\ InFunc /\ co.form # "" /\ Len(co.vals) = Len(OpFields(co.form))
